@@ -23,6 +23,20 @@ shrunk failing input):
   6 TextIndex.sort: empty result no longer returned unchanged
   7 CosineIndex.query_weight sums idf instead of idf^2
   8 AndNode.executeQuery no longer subtracts the NOT results
+K1 / B are the documented "BM25 free parameters" (class attributes of OkapiIndex): 30% of the Okapi corpora run on an
+index whose K1 and/or B is overridden on a subclass, a sub-subclass, the instance, or the instance of a subclass that
+says something else (K1 in {0.5, 2.0, 3.75, 1.2}, B in {0, 0.25, 0.5, 0.75, 1}) - handed to TextIndex(index=...), with
+the pure-Python scoring loop (`cfg impl textpy`); the model takes `cfg k1` / `cfg b` (Lean: `Score.Bm25`; the bound
+theorems hold for 0 <= k1 <= kq, 0 <= b <= 1).  Seeded C20_E (query_weight reads a constant computed in the class
+body) was missed before and is caught now; two more of the class, VIOLATION on quick seed 0 here and in C08:
+  9  the Python loop reads `OkapiIndex.B` instead of `self.B`
+  10 query_weight reads `type(self).K1` (an instance-level override is ignored)
+`sort` also gets results of >= 32 x limit ids (limit 1-5, 1-5 distinct scores: the limit-th place is shared), the
+class of seeded C20_F (n-best fast path without the final cut; was caught through a negative limit only); one more:
+  11 n-best fast path `heapq.nlargest(limit, result.items(), key=weight)` - ties come out by ascending docid
+NOT generated, because it fails on the unchanged tree (reported): the COMPILED loop keeps the constants of okascore.c
+whatever K1 / B say ("okascore hardcodes the values of K, B1"), query_weight reads self.K1 - with K1 < 1.2 on a
+subclass scores exceed 1 (K1 = 0.5, docs 'apple'*30 / 'pear plum' / 'apple pear': apply('apple') -> 1.346, 1.005).
 Repeated one-word queries with DICT_CUTOFF 2 / 3 / default (see C08): seeded change C08_F (setops._trivial scales in
 place) and C08's mutations 10 (single-operand intersection, reached through a word+stop-word phrase) and 11 (single-match
 glob) give VIOLATION here on quick seed 0; 10 and 11 were run against the generator as it was before and were missed.
@@ -38,7 +52,7 @@ BUILD_C = True
 AUDIT_IMPORTS = ["HypatiaProofs.Properties.C20", "HypatiaProofs.Properties.C20Keys"]
 THEOREMS = ["Hyp.C20." + t for t in (
     "c20_apply_normalised", "c20_apply_passthrough", "c20_tree_score", "c20_okapi_raw_bound",
-    "c20_okapi_bound", "c20_cosine_raw_bound", "c20_cosine_bound", "c20_cosine_repeated_term", "c20_sort_weighted", "c20_sort_limit", "c20_sort_empty",
+    "c20_okapi_bound", "c20_okapi_bound_default", "c20_cosine_raw_bound", "c20_cosine_bound", "c20_cosine_repeated_term", "c20_sort_weighted", "c20_sort_limit", "c20_sort_empty",
     "c20_sort_unweighted",
     # composed with C03 (Properties/C20Keys.lean): the scored result has the keys of the key-set model
     "c20_scored_keys_are_c03_result", "c20_scored_documents_satisfy_query")]
@@ -296,6 +310,24 @@ def gen(rng, tier, idx):
         ds = rng.sample(ids, min(n, len(ids)))
         lim = rng.choice(["none", "none", 0, 1, 2, 3, 50, -1, -2])
         rev = rng.randrange(2)
+        if rng.random() < 0.3:
+            # a short page out of a big result: >= 32 x limit hits (n-best selection instead of a full sort is
+            # worth it there), few distinct scores, so that the limit-th place is shared (a tie at the cut)
+            lim = rng.choice([1, 1, 2, 2, 3, 5])
+            n = lim * rng.choice([32, 32, 33, 40, 64]) + rng.choice([0, 0, 1, -1])
+            ds = rng.sample(ids, min(len(ids), 3)) + rng.sample(range(1000, 1000 + 3 * n), n)
+            ds = ds[:n]
+            pool = rng.choice([[0.5], [0.25, 0.5], [0.125, 0.25, 0.5, 0.75, 1.0], [0.5, 1.0, 1.0, 1.0]])
+            vals = [rng.choice(pool) for _ in ds]
+            if rng.random() < 0.3:
+                # exactly lim-1 clear winners / losers, everything else tied
+                for j in range(lim - 1):
+                    vals[rng.randrange(len(vals))] = 2.0 if not rev else 0.0625
+            c = ["sort", rev, lim]
+            for d, v in zip(ds, vals):
+                c += [d, v]
+            cmds.append(c)
+            return
         if rng.random() < 0.75:
             vals = [rng.choice([0.125, 0.25, 0.5, 0.5, 1.0, 0.75]) for _ in ds]      # heavy ties
             c = ["sort", rev, lim]
@@ -347,9 +379,13 @@ def gen(rng, tier, idx):
             repeated_reads()
     for _ in range(rng.randrange(0, 3)):
         sort_cmds()
-    cfg = [["cfg", "kind", kind], ["cfg", "impl", "text"], ["cfg", "fam", fam]]
+    # K1 / B (the documented BM25 free parameters) overridden on a subclass / on the instance handed to
+    # TextIndex(index=...): pure-Python loop (the compiled one keeps the constants of okascore.c)
+    tuned = base.gen_tuning(rng, 0.3) if kind == "okapi" else []
+    cfg = [["cfg", "kind", kind], ["cfg", "impl", "textpy" if tuned else "text"], ["cfg", "fam", fam]]
     if cutoff:
         cfg.append(["cfg", "cutoff", cutoff])
+    cfg += tuned
     return {"session": "score", "cfg": cfg, "cmds": cmds}
 
 
@@ -364,7 +400,14 @@ def impl_run(hyp, case):
     cfg = cfgdict(case)
     fam = BTrees.family32 if cfg["fam"] == 32 else BTrees.family64
     lex = base.StubLexicon()
-    inner = CosineIndex(lex, family=fam) if cfg["kind"] == "cosine" else okapiindex.OkapiIndex(lex, family=fam)
+    if cfg["kind"] == "cosine":
+        inner = CosineIndex(lex, family=fam)
+    elif cfg["impl"] == "textpy":
+        inner = base.tuned_index(cfg, base._PURE.OkapiIndex, lex, fam)
+    else:
+        if "k1" in cfg or "b" in cfg:
+            raise core.Infra("K1 / B overrides are only compared on the pure-Python loop")
+        inner = okapiindex.OkapiIndex(lex, family=fam)
     if cfg.get("cutoff"):
         inner.DICT_CUTOFF = int(cfg["cutoff"])
     ti = TextIndex("text", lexicon=lex, index=inner, family=fam)
@@ -388,6 +431,10 @@ def impl_run(hyp, case):
                 ti.index_doc(c[1], base.Doc(" ".join(map(str, c[2:]))))
                 outs.append("ok")
             elif op == "reindex":
+                if c[1] not in inner._docweight:
+                    # TextIndex.reindex_doc IS index_doc: never generated for an unknown id; a shrinking step that
+                    # drops the earlier index command must not turn the case into a different one
+                    raise core.Infra("reindex of an unknown docid through TextIndex is not a generated case")
                 ti.reindex_doc(c[1], base.Doc(" ".join(map(str, c[2:]))))
                 outs.append("ok")
             elif op == "unindex":
@@ -468,6 +515,10 @@ def nontrivial(case, outs):
 def features(case, outs):
     cfg = cfgdict(case)
     f = ["kind:" + cfg["kind"], "fam:%s" % cfg["fam"], "cutoff:%s" % (cfg.get("cutoff") or "default")]
+    if cfg.get("override"):
+        f += ["tuned:any", "tuned:" + cfg["override"],
+              "tuned:K1=%s,B=%s" % (base.unbits(cfg["k1"]) if "k1" in cfg else "default",
+                                    base.unbits(cfg["b"]) if "b" in cfg else "default")]
     cutoff = int(cfg.get("cutoff") or 10)
     read = {}
     for (i, c, table, terms, globs), o in zip(base.replay_tables(case), outs):
@@ -503,6 +554,12 @@ def features(case, outs):
             elif op == "apply" and o.startswith("{"):
                 vals = [float(t.split(":")[1]) for t in o[1:-1].split()]
                 f.append("apply:scored")
+                if cfg.get("override"):
+                    f.append("tuned:apply-scored")
+                    if "k1" in cfg:
+                        f.append("tuned:apply-scored-with-K1-overridden")
+                        if base.unbits(cfg["k1"]) > 1.2 and any(v > 2.2 / (1 + base.unbits(cfg["k1"])) for v in vals):
+                            f.append("tuned:K1>1.2-and-score>2.2/(1+K1)")
                 if any(v > 0.999999 for v in vals):
                     f.append("apply:score==1")
                 if any(v > 1 + 1e-6 for v in vals):
@@ -517,6 +574,11 @@ def features(case, outs):
                 vals = [c[i + 1] for i in range(3, len(c), 2)]
                 if len(set(vals)) < len(vals):
                     f.append("sort:ties")
+                if isinstance(c[2], int) and c[2] > 0 and len(vals) >= 32 * c[2]:
+                    f.append("sort:result>=32xlimit")
+                    sv = sorted(vals, reverse=not c[1])
+                    if len(sv) > c[2] and sv[c[2] - 1] == sv[c[2]]:
+                        f.append("sort:result>=32xlimit-tie-at-the-cut")
                 if o == "same":
                     f.append("sort:empty-returned-unchanged")
     for k in sorted(set(f)):
@@ -537,6 +599,12 @@ RULE = ("corpora as in C08 (histories of index/reindex/unindex/reset through Tex
         "word+stop-word phrase) on the most frequent word through apply / applyb / applysort before and after "
         "other reads of the unchanged corpus (measured quick seed 0, of 912 corpora: 587 repeat on a dict posting, "
         "139 on a stored IFBTree posting - 66 cosine; by form atom 111, glob 54, phrase 28 on stored trees). "
+        "30% of the Okapi corpora: K1 / B overridden on a subclass / sub-subclass / instance / instance of a "
+        "subclass handed to TextIndex(index=...), pure-Python loop, cfg k1 / cfg b to the model (measured quick "
+        "seed 0: 154 of 492 Okapi corpora - 31 / 36 / 42 / 45; 584 scored apply results on them, 432 with K1 "
+        "overridden, 96 with K1 > 1.2 and a score above 2.2/(1+K1)); 30% of the hand-made sort calls have "
+        ">= 32 x limit ids (limit 1-5, 32-64 x limit ids, 1-5 distinct scores; measured 223 of 728 sort calls, "
+        "all 223 with a tie at the cut). "
         "non-trivial = a scored apply with >= 2 documents and an applyb inside the hypotheses")
 LEVEL_TEXT = ("Lean 4 theorems over the reals: TextIndex.apply = raw score / query_weight (raw if the weight is "
               "0) for every tree; for every glob-free tree, every history and every lexicon each raw score is a "
